@@ -138,15 +138,16 @@ def job_complex(P, taps, W):
     return recs
 
 
-def job_chunks(P, taps, Wtot):
-    """every composition of Wtot windows into chunks == one shot, term for term"""
+def job_chunks(P, taps, Wtot, cplx=False):
+    """every composition of Wtot windows into chunks == one shot, term for term (cplx: a complex stream -- the tail
+    carried over between calls keeps its imaginary part)"""
     recs = []
     for comp in compositions(Wtot):
-        tag = f"C08:chunks:{(P, taps, Wtot)}:{comp}"
+        tag = f"C08:chunks:{(P, taps, Wtot)}:{comp}" + (':complex' if cplx else '')
         with volt_patches():
             fb, _ = mk_fb(taps, P)
             fb._reset_cache()
-            x = sym_stream('x', Wtot * taps * P)
+            x = sym_stream('x', Wtot * taps * P, complex_=cplx)
             ws = [lift(w) for w in fb.window]
             outs, pos = [], 0
             for c in comp:
@@ -174,7 +175,7 @@ def job_chunks(P, taps, Wtot):
                 for i in range(taps * P):
                     pairs.append((cparts(cache_after[i]), xs[(Wtot - 1) * taps * P + i]))
         decide(tag, pairs if ok else None, recs, 'C08:chunking', f'chunked channelize {comp} differs from the one-shot spectra',
-               dict(fn='pfb', P=P, taps=taps, chunks=list(comp), cplx=False, scenario='chunks'))
+               dict(fn='pfb', P=P, taps=taps, chunks=list(comp), cplx=cplx, scenario='chunks'))
     return recs
 
 
@@ -476,6 +477,7 @@ def main():
             jobs.append(('job_complex', (P, taps, 2)))
             for Wtot in range(2, Wmax + 1):
                 jobs.append(('job_chunks', (P, taps, Wtot)))
+            jobs.append(('job_chunks', (P, taps, 3, True)))
             jobs.append(('job_cache_isolation', (P, taps)))
             jobs.append(('job_window_and_rfft', (P, taps, 2)))
     # one call producing more than a thousand spectra (a block-wise / slab-wise implementation must not lose its remainder)
